@@ -2,7 +2,7 @@
     Property theorems only.  The statements are about [combine_paths], the model of
     sciparse::path::combinator::combine, for every hash function standing for SHA-256 and every
     HashMap iteration order (any function returning a permutation). *)
-From Sci Require Import Combine.Model Combine.Spec Combine.Obs Combine.Proofs Combine.ProofsC19 Combine.ProofsC04 Combine.ProofsMeta Combine.ProofsPath Combine.ProofsWF Combine.SpecRules Combine.ProofsSound Combine.ProofsIfaces Combine.ProofsOrder.
+From Sci Require Import Combine.Model Combine.Spec Combine.Obs Combine.Proofs Combine.ProofsC19 Combine.ProofsC04 Combine.ProofsMeta Combine.ProofsPath Combine.ProofsWF Combine.SpecRules Combine.ProofsSound Combine.ProofsIfaces Combine.ProofsOrder Combine.ProofsComplete Combine.ProofsGraph Combine.ProofsPerm Combine.ProofsTies.
 From Coq Require Import Permutation Sorted.
 Local Open Scope N_scope.
 
@@ -105,7 +105,7 @@ Print Assumptions endpoints_match.
 (** The MTU is the minimum over traversed ASes and links: every returned path was built from
     a search solution, and its metadata MTU is the minimum of 65535 and the values
     [edge_mtus] lists for the traversed entries of each used segment -- the AS-internal MTU
-    (as u16) of every traversed AS entry, the ingress-link MTU of every entry entered over
+    (saturated at 65535) of every traversed AS entry, the ingress-link MTU of every entry entered over
     its construction-ingress link (not at a shortcut entry, not when 0), and the peering-link
     MTU at a peering crossing.  The metadata interface list and the encoded hop fields are
     the concatenation of the per-edge lists. *)
@@ -187,13 +187,9 @@ Qed.
     -- [NoTies], stated on the solutions found with the insertion-order iteration), the result
     of [combine] is the same for EVERY iteration order of the two HashMap levels.  This is what
     the correspondence relies on when it runs the model with insertion order against an
-    implementation whose HashMaps are randomly seeded.
-    PARTIAL with respect to invariance under permutation / duplication of the INPUT lists:
-    proved for reorderings of the candidate edges of a vertex (which is all a permutation of
-    the input can cause once the graphs have the same edge set); that the graphs built from
-    permuted inputs have the same edge set is checked by the correspondence (shuffled and
-    duplicated variants of every query), not proved. *)
-Theorem combine_order_irrelevant_partial :
+    implementation whose HashMaps are randomly seeded.  (Invariance under permutation and
+    duplication of the input lists is [combine_perm] below.) *)
+Theorem combine_order_irrelevant :
   forall Hid Hfp ord_v ord_e src dst cores non_cores g,
     order_ok ord_v ord_e ->
     add_segments [] (input_segments Hid cores non_cores) = Ok g ->
@@ -204,4 +200,84 @@ Proof.
   intros Hid Hfp ord_v ord_e src dst cores non_cores g [Hv He] Hg Hnt.
   exact (combine_order_irrelevant_lemma _ _ _ _ _ _ _ _ _ Hv He Hg Hnt).
 Qed.
-Print Assumptions combine_order_irrelevant_partial.
+Print Assumptions combine_order_irrelevant.
+
+(** Completeness: every combination allowed by the SCION rules of [SpecRules] is found.  For
+    well-formed segments (as above, and peer entries of an AS entry naming pairwise different
+    peering links) and a valid combination [uses] from [src] to [dst] that does not pass
+    through the destination AS before its end, the search contains the corresponding solution
+    (edge by edge: same segment, same shortcut and peer index).  If the path of that solution
+    is produced at all (it encodes: at most 63 hop fields per segment and 984 bytes; its
+    interface list is non-empty and even) then it consists, use by use, of exactly the hop
+    fields of the combination, and unless it is dropped by the loop filter the result
+    contains a path with the same fingerprint (same source, destination and hop-field
+    interface sequence) whose expiry is at least as late -- duplicate filtering keeps the
+    latest expiry ([dedup_keeps_latest_expiry]). *)
+Theorem combine_complete :
+  forall Hid Hfp ord_v ord_e src dst cores non_cores out uses,
+    order_ok ord_v ord_e ->
+    wf_input cores non_cores ->
+    combine_paths Hid Hfp ord_v ord_e src dst cores non_cores = Ok out -> src <> dst ->
+    ValidCombination cores non_cores src dst uses -> NoEarlyDst dst uses ->
+    exists l,
+      Forall2 (EdgeOfUse Hid) l uses
+      /\ forall p, sol_path Hfp (mkSol l (VAS dst) (edges_weight l)) = Ok (Some p) ->
+           Forall2 SegOfUse (sp_segs p) uses
+           /\ (has_loops p = Ok false ->
+               exists q, In q out /\ sp_fp q = sp_fp p /\ path_expiration p <= path_expiration q).
+Proof.
+  intros Hid Hfp ord_v ord_e src dst cores non_cores out uses [Hv He] Hwf Hout Hne Hvc Hearly.
+  exact (combine_complete_lemma _ _ _ _ _ _ _ _ _ _ Hv He Hwf Hout Hne Hvc Hearly).
+Qed.
+Print Assumptions combine_complete.
+
+(** Duplicate filtering keeps the latest expiry: every path produced before duplicate
+    filtering is represented in the result by a path with the same fingerprint whose expiry
+    is at least as late.  For every input (with src <> dst; for src = dst the result is
+    empty by definition). *)
+Theorem dedup_keeps_latest_expiry :
+  forall Hid Hfp ord_v ord_e src dst cores non_cores out cand p,
+    src <> dst ->
+    combine_paths Hid Hfp ord_v ord_e src dst cores non_cores = Ok out ->
+    candidate_paths Hid Hfp ord_v ord_e src dst cores non_cores = Ok cand -> In p cand ->
+    exists q, In q out /\ sp_fp q = sp_fp p /\ path_expiration p <= path_expiration q.
+Proof.
+  intros Hid Hfp ord_v ord_e src dst cores non_cores out cand p Hne Hout Hcand Hp.
+  destruct (combine_stages _ _ _ _ _ _ _ _ _ Hout) as [[E _]|(g & cand' & _ & _ & _ & Hc' & _ & Hf)];
+    [apply N.eqb_eq in E; contradiction|].
+  rewrite Hcand in Hc'. inversion Hc'; subst cand'.
+  exact (filter_duplicates_repr cand [] [] out DInv2_nil Hf p (or_intror Hp)).
+Qed.
+Print Assumptions dedup_keeps_latest_expiry.
+
+(** Invariance under reordering and duplication of the input lists: two calls whose core
+    lists contain the same segments and whose non-core lists contain the same segments (in any
+    order, any multiplicity), on well-formed segments, return the same list -- for any two
+    HashMap iteration orders -- provided no two distinct search solutions tie under the sort
+    key ([NoTies]; segments with identical hop sequences but different timestamps do tie, and
+    for them the implementation's result does depend on HashMap order, see the manifest). *)
+Theorem combine_perm :
+  forall Hid Hfp ov oe ov' oe' src dst cores non_cores cores' non_cores',
+    order_ok ov oe -> order_ok ov' oe' ->
+    wf_input cores non_cores -> wf_input cores' non_cores' ->
+    (forall s, In s cores <-> In s cores') -> (forall s, In s non_cores <-> In s non_cores') ->
+    NoTies (bfs ord_id_v ord_id_e (graph_of (input_segments Hid cores non_cores)) dst 4 [sol_new (VAS src)]) ->
+    combine_paths Hid Hfp ov oe src dst cores non_cores = combine_paths Hid Hfp ov' oe' src dst cores' non_cores'.
+Proof.
+  intros Hid Hfp ov oe ov' oe' src dst cores non_cores cores' non_cores' [Hv He] [Hv' He'] W W' Sc Sn Hnt.
+  exact (combine_perm_lemma _ _ _ _ _ _ _ _ _ _ _ _ Hv He Hv' He' W W' Sc Sn Hnt).
+Qed.
+Print Assumptions combine_perm.
+
+(** The [NoTies] hypothesis of [combine_perm] / [combine_order_irrelevant] is decidable: it
+    holds whenever no two neighbours of the sorted solution list compare Equal -- the very test
+    ([adjacent_ties]) the correspondence driver evaluates on every case to decide between
+    exact and route-set comparison. *)
+Theorem tie_test_sound :
+  forall L src dst,
+    adjacent_ties (get_paths ord_id_v ord_id_e (graph_of L) src dst) = false ->
+    NoTies (bfs ord_id_v ord_id_e (graph_of L) dst 4 [sol_new (VAS src)]).
+Proof.
+  intros L src dst H. apply no_adjacent_ties_noties; [apply KInv_graph_of'|exact H].
+Qed.
+Print Assumptions tie_test_sound.
